@@ -1196,7 +1196,7 @@ def run(chk):
                 batches.append((w, h, None, "directed", None))
         chk.cov["streams"]["directed"] = len(worlds) * len(directed_histories())
         process(chk, batches, counters)
-        nseq = 1300 if quick else 10000
+        nseq = 1300 if quick else 8000
         maxlen = 12 if quick else 40
         g = Gen(chk.rng)
         nrand = 0
